@@ -548,6 +548,14 @@ fn execute(case: &Case, ex: &mut Explorer, max_calls: usize, all_shorts: bool) -
             fail("error-not-reported", format!("the stream failed with a hard error but the call returned {:?}", result));
         }
     }
+    // 2'. end-of-stream ends a read: the reader is not asked again after it answered Ok(0)
+    if case.form.is_read() {
+        if let Some(z) = calls.iter().position(|c| c.1 == Ans::Zero && c.0 > 0) {
+            if z + 1 != calls.len() {
+                fail("call-after-end-of-stream", format!("the reader was called again after it reported end of stream: {:?}", calls));
+            }
+        }
+    }
     // 3. never ask the stream for more than the remaining part of the request
     {
         let mut moved = 0usize;
